@@ -108,9 +108,10 @@ def error_info(ac, text):
 
 def _timer(t):
     """t = None (disabled) or (hour, minute)."""
+    # repository docstrings / test vectors: bit 8 of the first byte set = timer DISABLED
     if t is None:
-        return [0, 0]
-    return [0x80 | (t[0] & 0x1F), t[1] & 0x3F]
+        return [0x80, 0]
+    return [t[0] & 0x1F, t[1] & 0x3F]
 
 
 def at4_timer_status(timers):
